@@ -33,6 +33,7 @@ func init() {
 }
 
 func runC09(c *Ctx) {
+	runC09Second(c)
 	runC09Deps(c)
 	const sp = "service/state"
 	pf := c.pkgFuncs(sp)
@@ -440,6 +441,93 @@ func runC09Deps(c *Ctx) {
 				pathEdgeFilter = old
 				c.check(!by, rule, "every write-locked, realized account is reset", acct[0].Pos(), "skip only if not write-locked or not realized", "a write-locked account can be skipped by Reset ("+traceString(tr)+")")
 			}
+		}
+	}
+}
+
+// runC09Second: rules added for the second list of independent mutants.
+// (1) a committing transaction wakes every goroutine waiting for it
+// (Broadcast, never Signal: several successors may wait on one predecessor);
+// (2) both executors refresh the context's system information before each
+// transaction (the parallel worker must see what an earlier governance
+// transaction changed, as the sequential loop does).
+func runC09Second(c *Ctx) {
+	nB := 0
+	for _, f := range c.pkgFuncs("service/state") {
+		if f.Signature.Recv() == nil || namedOf(f.Signature.Recv().Type()) != "worldVirtualState" {
+			continue
+		}
+		for _, cs := range c.calls(f, byMethod("Signal")) {
+			if strings.Contains(render(cs.Common().Args[0]), ".waiter") {
+				c.violate("C09.commit-then-done", fnName(f)+" wakes all waiters", cs.Pos(), "Signal() wakes one of the goroutines waiting for this transaction; the others never resume and the block does not complete")
+			}
+		}
+		for _, cs := range c.calls(f, byMethod("Broadcast")) {
+			if strings.Contains(render(cs.Common().Args[0]), ".waiter") {
+				nB++
+			}
+		}
+	}
+	c.check(nB >= 1, "C09.commit-then-done", "Commit wakes all waiters", token.NoPos, fmt.Sprintf("%d Broadcast sites", nB), "no waiter.Broadcast() in worldVirtualState")
+	for _, spec := range [][2]string{{"executeTxsConcurrent", "parallel"}, {"executeTxsSequential", "sequential"}} {
+		f := c.mustFn("service", "transition", spec[0])
+		if f == nil {
+			continue
+		}
+		n := 0
+		for _, g := range withAnon(f) {
+			exec := c.calls(g, func(cc *ssa.CallCommon) bool { return methodName(cc) == "Execute" })
+			for _, up := range c.calls(g, byMethod("UpdateSystemInfo")) {
+				n++
+				okO := false
+				for _, ex := range exec {
+					if dominatesInstr(up.Instr, ex.Instr) {
+						okO = true
+					}
+				}
+				c.check(okO, "C09.system-info", spec[1]+" executor refreshes the system information before executing", up.Pos(), "UpdateSystemInfo → Execute", "UpdateSystemInfo does not precede Execute")
+			}
+		}
+		c.check(n >= 1, "C09.system-info", spec[1]+" executor refreshes the context's system information per transaction", f.Pos(), fmt.Sprintf("%d calls", n), "the "+spec[1]+" executor never calls ctx.UpdateSystemInfo(): a transaction after a governance change runs with the values of the block start, unlike in the other executor")
+	}
+	// a worker goroutine gets its per-transaction values as arguments, never by capturing a
+	// variable the dispatch loop goes on changing
+	if f := c.mustFn("service", "transition", "executeTxsConcurrent"); f != nil {
+		nGo := 0
+		for _, b := range f.Blocks {
+			for _, in := range b.Instrs {
+				g, ok := in.(*ssa.Go)
+				if !ok {
+					continue
+				}
+				mc, ok := g.Call.Value.(*ssa.MakeClosure)
+				if !ok {
+					continue
+				}
+				nGo++
+				h := loopHeaderOf(b)
+				for i, bd := range mc.Bindings {
+					al, isAl := bd.(*ssa.Alloc)
+					if !isAl || h == nil {
+						continue
+					}
+					body := loopBody(h)
+					changed := false
+					for _, st := range storesTo(al) {
+						if body[st.Block()] {
+							changed = true
+						}
+					}
+					name := "?"
+					if fn, ok := mc.Fn.(*ssa.Function); ok && i < len(fn.FreeVars) {
+						name = fn.FreeVars[i].Name()
+					}
+					c.check(!changed, "C09.dispatch-order", "worker does not capture the loop-carried variable "+name, g.Pos(), "passed as an argument", "the worker goroutine reads "+name+", which the dispatch loop keeps changing: the value a transaction sees depends on the schedule")
+				}
+			}
+		}
+		if nGo == 0 {
+			c.undecided("C09.dispatch-order", "worker goroutine", f.Pos(), "no go statement with a closure")
 		}
 	}
 }
